@@ -62,6 +62,7 @@ const (
 	fGhostHeld = -12 // held(mu)
 	fMapLen    = -13
 	fGhostMisc = -20
+	fGhostSeq  = -21
 )
 
 const maxLen = 1 << 48
@@ -284,7 +285,7 @@ func (u *Unit) assumeSliceWF(st *State, sv *SliceV) {
 		return
 	}
 	lim := c.BVu(maxLen, 64)
-	f := c.And(c.ULe(sv.Len, sv.Cap), c.ULe(sv.Cap, lim), c.ULe(sv.Off, lim),
+	f := c.And(c.ULe(sv.Len, sv.Cap), c.ULe(sv.Cap, lim), c.ULe(sv.Off, lim), c.NotGhost(sv.Base),
 		c.Implies(c.Eq(sv.Base, c.NilA), c.And(c.Eq(sv.Cap, c.BVu(0, 64)), c.Eq(sv.Off, c.BVu(0, 64)))))
 	u.assumeGlobal(f)
 }
